@@ -49,7 +49,8 @@ SCRIPTS = [
     (("mdAtt",), ("att_edit",), ("att_edit",), {}, {}),
 ]
 STRATS = [("inline", None, None, True), ("use-local", None, None, True), ("inline", "use-remote", "clear-all", False),
-          ("use-base", None, "remove", True)]
+          ("use-base", None, "remove", True), ("use-local", "inline", None, True), ("use-base", None, "inline", True),
+          ("use-remote", "inline", "inline", False)]
 PLACEHOLDERS = ["none", "base-null", "base-empty", "local-null", "remote-null", "both-null"]
 # git hands a merge driver real (possibly empty) temp files, never the null
 # device, and does not call it for files deleted on a side
@@ -229,9 +230,12 @@ def make_cli(entry, script_idx, faults=True, placeholders=("none",), strats=(0,)
                      if paths[k] != NULL and not (ph == "base-empty" and k == "base")}
             if entry == "nbmerge":
                 out = os.path.join(td, "merged.ipynb")
-                with open(out, "w") as f:
-                    f.write(ORIGINAL)
-                before = ORIGINAL.encode()
+                if E.choice("output-exists", 2):
+                    with open(out, "w") as f:
+                        f.write(ORIGINAL)
+                    before = ORIGINAL.encode()
+                else:
+                    before = None           # the output location does not exist yet
             else:
                 out = paths["local"] if paths["local"] != NULL else os.path.join(td, "local.ipynb")
                 before = read_bytes(out)
@@ -335,7 +339,7 @@ def shards(tier, props, known):
             out.append(("make_cli", "cli-%s-%d" % (entry, i),
                         dict(entry=entry, script_idx=i, faults=False,
                              placeholders=tuple(PLACEHOLDERS if entry == "nbmerge" else DRIVER_PLACEHOLDERS),
-                             strats=(0, 1, 2, 3), **kw)))
+                             strats=tuple(range(len(STRATS))), **kw)))
         fs = range(len(SCRIPTS))
         for i in fs:
             out.append(("make_cli", "fault-%s-%d" % (entry, i),
